@@ -487,6 +487,8 @@ def agent_vector(index: RepoIndex, rep, rule: str, rule_dtype: str) -> None:
             else None
         cells, is_float = vector_of(w, rv) if rv is not None else (None, False)
     except AnalysisError as ex:
+        if 'outside the vector' not in str(ex):
+            raise           # a spelling the vector grammar does not cover is not a verdict
         cells, is_float = None, False
         rep.note(f'agent vector: {ex}')
     rep.check(cells is not None and len(cells) == 6 and is_float, rule_dtype, STATE,
